@@ -372,6 +372,8 @@ def load_corpus():
         cp = os.path.join(vlib.VERIF, 'corpus', d)
         if os.path.isdir(cp):
             for fn in sorted(os.listdir(cp)):
+                if not fn.endswith('.cases'):
+                    continue
                 for l in open(os.path.join(cp, fn)):
                     l = l.strip()
                     if l and not l.startswith('#'):
@@ -441,79 +443,113 @@ def first_event_diff(a, b):
     return min(len(ea), len(eb)), '<end>', '<end>'
 
 
+def merge_stats(dst, src):
+    for k, v in src.items():
+        dst[k] = dst.get(k, 0) + v
+
+
 def check(rep):
     t0 = time.time()
     ctx = vlib.prepare(rep, harnesses={'srv': srvlib.SRV}, sanitize=(rep.tier == 'thorough'), model='SRV')
-    timing = dict(prepare=round(time.time() - t0, 1))
+    timing = collections.Counter(prepare=round(time.time() - t0, 1))
     quick = rep.tier == 'quick'
     corpus = load_corpus()
-    n_gen, n_tgt, nev = (250, 450, 120) if quick else (6000, 12000, 200)
-    generic, gstats = srvlib.gen_histories(rep.seed, n_gen, nev, tag='c14-srv')
-    targeted, tstats = gen_targeted(rep.seed, n_tgt, nev)
-    cases = corpus + targeted + generic
-    timing['generate'] = round(time.time() - t0, 1)
+    # batches keep the full-hex outputs in memory bounded
+    nbatch, n_tgt, n_gen, nev = (1, 450, 250, 120) if quick else (24, 600, 250, 200)
+    # the extracted model needs ~4 ms per event: the model/implementation diff takes the corpus, every
+    # second targeted and every third generic history (thorough: every 4th / 6th of 20 000)
+    m_tgt, m_gen = (2, 3) if quick else (4, 6)
     rep.cov['rule'] = ('corpus first (corpus/C14, corpus/SRV); targeted histories (C14Gen: lazy / immediate / mixed sessions, '
                        'duplicates of held queries with new ids, other source ports/addresses, same id, changed case, other type; '
                        'ping bursts, tun packets for the session, sweeps, id-0 queries, raw-mode switch followed by DNS queries, '
                        're-version, 60 s jumps) and generic srvlib histories; one record type per history over all 7; '
                        'implementation run under VERIF_FULL=1, oracles: multiset monitor on strictly parsed datagrams + '
-                       'held-query monitor on users[] digests; then model/implementation diff per history and event. '
-                       'distinct_nontrivial = answers that were emitted in a later event than their query arrived (held queries)')
+                       'held-query monitor on users[] digests; then model/implementation diff per history and event on the '
+                       'corpus and every %d-th targeted / %d-th generic history. '
+                       'distinct_nontrivial = answers that were emitted in a later event than their query arrived (held queries)' % (m_tgt, m_gen))
     st = collections.Counter()
-    impl = None
-    if 'srv' in ctx.exe:
-        rc, impl, err = run_full(ctx.exe['srv'], cases, ctx.work, 'impl')
-        timing['impl_run'] = round(time.time() - t0, 1)
-        if rc != 0:
-            ctx.broken.append(('impl-crash', 'implementation harness exited with %d: %s' % (rc, err[-300:])))
-        for c, o in zip(cases, impl):
-            if o == '<NO-OUTPUT>':
-                continue
-            try:
-                monitor(c, o, st)
-            except Verdict as v:
-                small = truncate(c, v.event_index)
-                rep.add_violation(v.key, v.what, dict(kind='history', driver='srv', case=small, event=v.event_index,
-                                                      expected='every answer matches a distinct unanswered received query; '
-                                                               'held queries are answered before they are overwritten'))
-                break
-    timing['monitor'] = round(time.time() - t0, 1)
-    dist = dict(corpus=len(corpus), targeted=len(targeted), generic=len(generic), events_per_history=nev)
+    gstats, tstats = {}, {}
+    dist = dict(corpus=len(corpus), targeted=0, generic=0, events_per_history=nev, batches=nbatch)
+    validated = 0
+    validated_events = 0
+    san_cases = 0
+    samples = []
+    for bi in range(nbatch):
+        if rep.violations or any(k == 'correspondence' for k, _ in ctx.broken):
+            break
+        tg = time.time()
+        generic, gs = srvlib.gen_histories(rep.seed, n_gen, nev, tag='c14-srv-%d' % bi)
+        targeted, ts = gen_targeted(rep.seed, n_tgt, nev, tag='c14-%d' % bi)
+        merge_stats(gstats, gs)
+        merge_stats(tstats, ts)
+        head = corpus if bi == 0 else []
+        cases = head + targeted + generic
+        dist['targeted'] += len(targeted)
+        dist['generic'] += len(generic)
+        if bi == 0:
+            samples = [c[:400] for c in (cases[:1] + targeted[:2] + generic[:1])]
+        timing['generate'] += round(time.time() - tg, 1)
+        impl = None
+        if 'srv' in ctx.exe:
+            tg = time.time()
+            rc, impl, err = run_full(ctx.exe['srv'], cases, ctx.work, 'impl')
+            timing['impl_run'] += round(time.time() - tg, 1)
+            if rc != 0:
+                ctx.broken.append(('impl-crash', 'implementation harness exited with %d: %s' % (rc, err[-300:])))
+            tg = time.time()
+            for c, o in zip(cases, impl):
+                if o == '<NO-OUTPUT>':
+                    continue
+                try:
+                    monitor(c, o, st)
+                except Verdict as v:
+                    small = truncate(c, v.event_index)
+                    rep.add_violation(v.key, v.what, dict(kind='history', driver='srv', case=small, event=v.event_index,
+                                                          expected='every answer matches a distinct unanswered received query; '
+                                                                   'held queries are answered before they are overwritten'))
+                    break
+            timing['monitor'] += round(time.time() - tg, 1)
+        if ctx.model and impl is not None and not rep.violations:
+            tg = time.time()
+            nh, nt = len(head), len(targeted)
+            sel = [i for i in range(len(cases)) if i < nh or (i < nh + nt and (i - nh) % m_tgt == 0)
+                   or (i >= nh + nt and (i - nh - nt) % m_gen == 0)]
+            mcases = [cases[i] for i in sel]
+            # the ".xy" hostname suffix of CNAME/MX/SRV answers rotates per answer within a process: both
+            # sides must see the same sequence of histories per shard, so the implementation runs the subset again
+            rc, impl2, err = run_full(ctx.exe['srv'], mcases, ctx.work, 'impl2')
+            rc, mod, err = run_full(ctx.model, mcases, ctx.work, 'model')
+            d = vlib.first_diff(mcases, impl2, mod)
+            good = mcases if d is None else mcases[:d]
+            validated += len(good)
+            validated_events += sum(c.count(' ; ') for c in good)
+            if d is not None:
+                k, ei, em = first_event_diff(impl2[d], mod[d])
+                ctx.broken.append(('correspondence', 'model and implementation disagree at event %d of a history: impl=%r model=%r ; case=%s' % (
+                    k, ei[-400:], em[-400:], truncate(mcases[d], k)[:3000])))
+            timing['model_diff'] += round(time.time() - tg, 1)
+            if 'srv' in ctx.san and bi % 6 == 0:
+                tg = time.time()
+                sub = mcases[::3]
+                rc, sl, err = run_full(ctx.san['srv'], sub, ctx.work, 'san')
+                san_cases += len(sub)
+                if rc != 0:
+                    idx = next((i for i, l in enumerate(sl) if l == '<NO-OUTPUT>'), None)
+                    rep.add_violation('sanitizer', 'ASan/UBSan report: ' + err[-400:],
+                                      dict(kind='history', driver='srv.san', case=sub[idx] if idx is not None else None, observed=err[-2000:]))
+                timing['sanitizer'] += round(time.time() - tg, 1)
     dist['generic_events'] = gstats
     dist['targeted_events'] = tstats
     rep.cov['input_distribution'] = dist
     rep.cov['monitor'] = dict(st)
     rep.cov['evaluations'] = st['events']
     rep.cov['distinct_nontrivial'] = st['answers_deferred']
-    rep.cov['samples'] = [c[:400] for c in (cases[:1] + targeted[:2] + generic[:1])]
-    if ctx.model and impl is not None:
-        # the extracted model needs ~4 ms per event: the quick tier diffs the corpus, every second targeted
-        # and every third generic history; the thorough tier all of them
-        sel = list(range(len(cases))) if not quick else \
-            [i for i in range(len(cases)) if i < len(corpus) or (i < len(corpus) + len(targeted) and i % 2 == 0)
-             or (i >= len(corpus) + len(targeted) and i % 3 == 0)]
-        mcases = [cases[i] for i in sel]
-        # the ".xy" hostname suffix of CNAME/MX/SRV answers rotates per answer within a process: both
-        # sides must see the same sequence of histories per shard, so the implementation runs the subset again
-        rc, impl2, err = run_full(ctx.exe['srv'], mcases, ctx.work, 'impl2')
-        rc, mod, err = run_full(ctx.model, mcases, ctx.work, 'model')
-        timing['model_run'] = round(time.time() - t0, 1)
-        d = vlib.first_diff(mcases, impl2, mod)
-        rep.cov['traces_validated_against_impl'] = len(mcases) if d is None else d
-        rep.cov['events_validated_against_impl'] = sum(c.count(' ; ') for c in (mcases if d is None else mcases[:d]))
-        if d is not None:
-            k, ei, em = first_event_diff(impl2[d], mod[d])
-            ctx.broken.append(('correspondence', 'model and implementation disagree on history %d at event %d: impl=%r model=%r ; case=%s' % (
-                sel[d], k, ei[-400:], em[-400:], truncate(mcases[d], k)[:3000])))
-        if 'srv' in ctx.san:
-            sub = cases[::4]
-            rc, sl, err = vlib.parallel_run_cases(ctx.san['srv'], sub, ctx.work, 'san')
-            rep.cov['sanitizer_cases'] = len(sub)
-            if rc != 0:
-                idx = next((i for i, l in enumerate(sl) if l == '<NO-OUTPUT>'), None)
-                rep.add_violation('sanitizer', 'ASan/UBSan report: ' + err[-400:],
-                                  dict(kind='history', driver='srv.san', case=sub[idx] if idx is not None else None, observed=err[-2000:]))
-    rep.cov['timing_cumulative_s'] = timing
+    rep.cov['samples'] = samples
+    rep.cov['traces_validated_against_impl'] = validated
+    rep.cov['events_validated_against_impl'] = validated_events
+    if san_cases:
+        rep.cov['sanitizer_cases'] = san_cases
+    rep.cov['timing_s'] = {k: round(v, 1) for k, v in timing.items()}
     if not rep.violations:
         ctx.report_broken()
     return rep
